@@ -470,4 +470,171 @@ theorem ranges_rot (occ : List Bool) (k : Nat) (hnf : false ∈ occ) :
   intro r hr
   exact shift_indices occ k r hr
 
+
+theorem mem_indices (n : Nat) (r : Nat × Nat) (w : Nat) :
+    w ∈ rangeToIndices n r ↔
+      if r.1 < r.2 then r.1 ≤ w ∧ w < r.2 else (r.1 ≤ w ∧ w < n) ∨ w < r.2 := by
+  unfold rangeToIndices
+  by_cases h : r.1 < r.2
+  · simp only [if_pos h, List.mem_range'_1]; omega
+  · simp only [if_neg h, List.mem_append, List.mem_range'_1]; omega
+
+theorem indices_nodup (n : Nat) (r : Nat × Nat) : (rangeToIndices n r).Nodup := by
+  unfold rangeToIndices
+  by_cases h : r.1 < r.2
+  · rw [if_pos h]; exact List.nodup_range' 1
+  · rw [if_neg h, List.nodup_append]
+    refine ⟨List.nodup_range' 1, List.nodup_range' 1, ?_⟩
+    intro a ha b hb
+    rw [List.mem_range'_1] at ha hb
+    omega
+
+theorem ranges_ringRunF (occ : List Bool) (hnf : false ∈ occ) (r : Nat × Nat) :
+    r ∈ contiguousRanges occ ↔ RingRunF (occF occ) occ.length r :=
+  ((ranges_spec occ hnf).1 r).trans (ringRunF_iff occ r).symm
+
+theorem ringRunF_disjoint_aux (f : Nat → Bool) (n : Nat) (a b : Nat × Nat) (w : Nat)
+    (A : LinRun f 0 n a.1 a.2) (c1 : ¬(a.1 = 0 ∧ f (n - 1) = true))
+    (c2 : ¬(a.2 = n ∧ f 0 = true)) (L0 : LinRun f 0 n 0 b.2) (L1 : LinRun f 0 n b.1 n)
+    (hwa : a.1 ≤ w ∧ w < a.2) (hwb : (b.1 ≤ w ∧ w < n) ∨ w < b.2) : False := by
+  rcases hwb with hwb | hwb
+  · have := linRun_unique f 0 n _ _ _ _ w A L1 hwa hwb
+    exact c2 ⟨this.2, linRun_first L0⟩
+  · have := linRun_unique f 0 n _ _ _ _ w A L0 hwa ⟨Nat.zero_le _, hwb⟩
+    exact c1 ⟨this.1, linRun_last L1⟩
+
+theorem ringRunF_disjoint (f : Nat → Bool) (n : Nat) (a b : Nat × Nat)
+    (ha : RingRunF f n a) (hb : RingRunF f n b) (w : Nat)
+    (hwa : w ∈ rangeToIndices n a) (hwb : w ∈ rangeToIndices n b) : a = b := by
+  rw [mem_indices] at hwa hwb
+  rcases ha with ⟨A, c1, c2⟩ | ⟨a1, A0, A1⟩ <;> rcases hb with ⟨B, d1, d2⟩ | ⟨b1, B0, B1⟩
+  · rw [if_pos A.2.1] at hwa
+    rw [if_pos B.2.1] at hwb
+    have := linRun_unique f 0 n _ _ _ _ w A B hwa hwb
+    exact Prod.ext this.1 this.2
+  · rw [if_pos A.2.1] at hwa
+    rw [if_neg (by omega)] at hwb
+    exact (ringRunF_disjoint_aux f n a b w A c1 c2 B0 B1 hwa hwb).elim
+  · rw [if_pos B.2.1] at hwb
+    rw [if_neg (by omega)] at hwa
+    exact (ringRunF_disjoint_aux f n b a w B d1 d2 A0 A1 hwb hwa).elim
+  · have q0 := linRun_unique f 0 n _ _ _ _ 0 A0 B0 ⟨Nat.le_refl _, A0.2.1⟩
+      ⟨Nat.le_refl _, B0.2.1⟩
+    have q1 := linRun_unique f 0 n _ _ _ _ (n - 1) A1 B1
+      ⟨by have := A1.2.1; omega, by have := A1.2.1; omega⟩
+      ⟨by have := B1.2.1; omega, by have := B1.2.1; omega⟩
+    exact Prod.ext q1.1 q0.2
+
+theorem full_getD (occ : List Bool) (hfull : ∀ b, b ∈ occ → b = true) (w : Nat)
+    (hw : w < occ.length) : occ.getD w false = true := by
+  rw [List.getD_eq_getElem?_getD, List.getElem?_eq_getElem hw]
+  exact hfull _ (List.getElem_mem hw)
+
+/-- every occupied wire is in some block and every index of a block is an occupied wire (full occupancy included) -/
+theorem ranges_cover (occ : List Bool) (w : Nat) :
+    (w < occ.length ∧ occ.getD w false = true) ↔ ∃ r ∈ contiguousRanges occ, w ∈ rangeToIndices occ.length r := by
+  rcases full_or_not occ with hnf | hfull
+  · obtain ⟨z, hz, hfz⟩ := (notfull_iff occ).1 hnf
+    have hnotfull : ∀ s, ¬ LinRun (occF occ) 0 occ.length s occ.length ∨ s ≠ 0 := by
+      intro s
+      by_cases hs : s = 0
+      · left; subst hs; intro h
+        exact bool_contra (h.2.2.2.1 z (Nat.zero_le _) hz) hfz
+      · exact Or.inr hs
+    constructor
+    · rintro ⟨hw, hfw⟩
+      obtain ⟨s, e, hL, h1, h2⟩ := linRun_exists (occF occ) 0 occ.length w (Nat.zero_le _) hw hfw
+      by_cases c1 : s = 0 ∧ occF occ (occ.length - 1) = true
+      · obtain ⟨hs, hf⟩ := c1
+        subst hs
+        obtain ⟨s1, e1, hL1, _, h4⟩ := linRun_exists (occF occ) 0 occ.length (occ.length - 1)
+          (Nat.zero_le _) (by omega) hf
+        have : e1 = occ.length := by have := hL1.2.2.1; omega
+        subst this
+        have hen : e ≠ occ.length := by
+          intro h; subst h
+          rcases hnotfull 0 with h | h
+          · exact h hL
+          · exact h rfl
+        have hfe : occF occ e = false := by
+          rcases hL.2.2.2.2.2 with h | h
+          · exact absurd h hen
+          · exact h
+        have hlt : e < s1 := by
+          apply Classical.byContradiction
+          intro hc
+          exact bool_contra (hL1.2.2.2.1 e (by omega) (by have := hL.2.2.1; omega)) hfe
+        refine ⟨(s1, e), (ranges_ringRunF occ hnf _).2 (Or.inr ⟨hlt, hL, hL1⟩), ?_⟩
+        rw [mem_indices, if_neg (by simp only; omega)]
+        exact Or.inr h2
+      · by_cases c2 : e = occ.length ∧ occF occ 0 = true
+        · obtain ⟨he, hf⟩ := c2
+          subst he
+          obtain ⟨s0, e0, hL0, h3, _⟩ := linRun_exists (occF occ) 0 occ.length 0
+            (Nat.zero_le _) (by omega) hf
+          have : s0 = 0 := by omega
+          subst this
+          have hen : e0 ≠ occ.length := by
+            intro h; subst h
+            rcases hnotfull 0 with h | h
+            · exact h hL0
+            · exact h rfl
+          have hfe : occF occ e0 = false := by
+            rcases hL0.2.2.2.2.2 with h | h
+            · exact absurd h hen
+            · exact h
+          have hlt : e0 < s := by
+            apply Classical.byContradiction
+            intro hc
+            exact bool_contra (hL.2.2.2.1 e0 (by omega) (by have := hL0.2.2.1; omega)) hfe
+          refine ⟨(s, e0), (ranges_ringRunF occ hnf _).2 (Or.inr ⟨hlt, hL0, hL⟩), ?_⟩
+          rw [mem_indices, if_neg (by simp only; omega)]
+          exact Or.inl ⟨h1, hw⟩
+        · refine ⟨(s, e), (ranges_ringRunF occ hnf _).2 (Or.inl ⟨hL, c1, c2⟩), ?_⟩
+          rw [mem_indices, if_pos hL.2.1]
+          exact ⟨h1, h2⟩
+    · rintro ⟨r, hr, hwr⟩
+      rw [mem_indices] at hwr
+      rcases (ranges_ringRunF occ hnf r).1 hr with ⟨A, _, _⟩ | ⟨a1, A0, A1⟩
+      · rw [if_pos A.2.1] at hwr
+        exact ⟨by have := A.2.2.1; omega, A.2.2.2.1 w hwr.1 hwr.2⟩
+      · rw [if_neg (by omega)] at hwr
+        rcases hwr with h | h
+        · exact ⟨h.2, A1.2.2.2.1 w h.1 h.2⟩
+        · exact ⟨by have := A0.2.2.1; omega, A0.2.2.2.1 w (Nat.zero_le _) h⟩
+  · by_cases hne : occ = []
+    · subst hne
+      simp [contiguousRanges, scan, mergeRing]
+    · rw [(full_ring_ranges occ hne hfull).1]
+      have hpos : 0 < occ.length := List.length_pos_iff.2 hne
+      simp only [List.mem_singleton, exists_eq_left, mem_indices, if_pos hpos]
+      constructor
+      · rintro ⟨h, _⟩; exact ⟨Nat.zero_le _, h⟩
+      · rintro ⟨_, h⟩; exact ⟨h, full_getD occ hfull w h⟩
+
+/-- blocks are pairwise disjoint and duplicate free (full occupancy included) -/
+theorem ranges_disjoint (occ : List Bool) :
+    ((contiguousRanges occ).flatMap (rangeToIndices occ.length)).Nodup := by
+  rw [List.Nodup, List.pairwise_flatMap]
+  refine ⟨fun r _ => indices_nodup _ r, ?_⟩
+  rcases full_or_not occ with hnf | hfull
+  · refine List.Pairwise.imp_of_mem ?_ (List.nodup_iff_pairwise_ne.1 (ranges_spec occ hnf).2)
+    intro a b ha hb hab x hx y hy hxy
+    subst hxy
+    exact hab (ringRunF_disjoint (occF occ) occ.length a b ((ranges_ringRunF occ hnf a).1 ha)
+      ((ranges_ringRunF occ hnf b).1 hb) x hx hy)
+  · by_cases hne : occ = []
+    · subst hne
+      simp [contiguousRanges, scan, mergeRing]
+    · rw [(full_ring_ranges occ hne hfull).1]
+      simp
+
+/-! Non-vacuity and sanity examples: a non-full ring with a seam-crossing block. -/
+example : false ∈ [true, true, false, true, false, true] := by decide
+example : contiguousRanges [true, true, false, true, false, true] = [(3, 4), (5, 2)] := by decide
+example : blocks [true, true, false, true, false, true] = [[3], [5, 0, 1]] := by decide
+example : blocks (rotOcc 2 [true, true, false, true, false, true]) = [[1, 2, 3], [5]] := by decide
+example : [true, true, true] ≠ [] ∧ ∀ b ∈ [true, true, true], b = true := by decide
+example : contiguousRanges [true, true, true] = [(0, 3)] := by decide
+
 end AlphaG.Ranges
